@@ -26,7 +26,8 @@ def gate_open(app, gate):
 class TwoParty:
     """cfg keys (all optional): a_code alloc|set, b_code set|input, code, nwords, api_a, api_b,
     plan_a / plan_b: [(payload_hex_or_bytes, gate)], get_a/get_b eager|lazy, appid_a, appid_b,
-    code_b (override what B types), versions_a, versions_b, dilation"""
+    code_b (override what B types), versions_a, versions_b, dilation; get_x "never" = the application
+    never asks for messages; get_limit = at most that many lazy get_message() calls per side"""
 
     def __init__(self, world, cfg):
         self.world = world
@@ -45,6 +46,7 @@ class TwoParty:
         self.helper = None
         self.lazy = {"A": cfg.get("get_a", "eager") == "lazy", "B": cfg.get("get_b", "eager") == "lazy"}
         self.stop_sending = False
+        self.gets_issued = {"A": 0, "B": 0}
         if cfg.get("a_code", "alloc") == "alloc":
             self.a.call("allocate_code", cfg.get("nwords", 2))
         else:
@@ -99,8 +101,11 @@ class TwoParty:
         for name in ("A", "B"):
             app = self.app(name)
             if (self.lazy[name] and app.pending_gets < 3 and not app.closed and app.api == "deferred"
-                    and "msg-err" not in app.kinds()):
-                acts.append((("app", name + ".get"), app.get_one_message))
+                    and "msg-err" not in app.kinds() and self.gets_issued[name] < self.cfg.get("get_limit", 1 << 30)):
+                def get(app=app, name=name):
+                    self.gets_issued[name] += 1
+                    app.get_one_message()
+                acts.append((("app", name + ".get"), get))
         return acts
 
     def drain_actions(self):
@@ -209,6 +214,7 @@ def build_case(spec, max_msgs=12, max_size=2000, adversary=True):
         "get_b": rng.choice(["eager", "eager", "lazy"]),
         "code": "%d-%s" % (rng.randint(1, 999), rng.choice(["alpha-beta", "purple-sausages", "x-y-z"])),
     }
+    cfg.update(spec.get("cfg_over", {}))
     if spec.get("dilate"):
         cfg["dilation"] = True
         cfg["api_a"] = cfg["api_b"] = "deferred"     # only the Deferred-mode wormhole has dilate()
